@@ -24,7 +24,7 @@ try:
     passes = 0
     for i in range(3):
         for attempt in range(4):
-            rc, out = run("go test -mod=mod -vet=off -count=1 ./... 2>&1 | grep -v 'no test files' | grep -v '^{' | tail -30")
+            rc, out = run("go test -mod=mod -vet=off -count=1 ./... 2>&1 | grep -a -v 'no test files' | grep -a -v '^{' | tail -30")
             fails = [l for l in out.splitlines() if l.startswith("--- FAIL") or l.startswith("FAIL") or "panic:" in l]
             if not fails: passes += 1; break
             if not all("TestClientResetStream" in l or l.startswith("FAIL") for l in fails): break
@@ -41,7 +41,7 @@ try:
     meta["demo_run_normalised"] = runcmd
     f = 0
     for i in range(3):
-        rc, out = run("cd %s && %s 2>&1 | grep -v '^{' | tail -15" % (demo_dir, runcmd))
+        rc, out = run("cd %s && %s 2>&1 | grep -a -v '^{' | tail -15" % (demo_dir, runcmd))
         if "FAIL" in out or "panic" in out: f += 1
         lastfail = out
     res["demo_failed_with_change"] = "%d/3" % f
@@ -51,7 +51,7 @@ try:
     shutil.copy(demo, demo_dst)
     ok = 0
     for i in range(3):
-        rc, out = run("cd %s && %s 2>&1 | grep -v '^{' | tail -15" % (demo_dir, runcmd))
+        rc, out = run("cd %s && %s 2>&1 | grep -a -v '^{' | tail -15" % (demo_dir, runcmd))
         if "FAIL" not in out and "panic" not in out and "ok" in out: ok += 1
     res["demo_passed_without_change"] = "%d/3" % ok
     assert ok == 3, "demo does not pass without the change: " + out[-800:]
